@@ -268,3 +268,137 @@ fn m80_expr_to_source_text() {
     assert!(b.len() >= 2 && b[0] == b'-' && b[1] == b'(');
     std::mem::forget((e, s));
 }
+crate::kproof!(cut, 20, fn m41_lambda_call_opt_then_req() {
+    use blots_core::ast::*;
+    use blots_core::values::{CapturedScope, LambdaArg, LambdaDef};
+    let a: f64 = kani::any();
+    let def = blots_core::functions::FunctionDef::Lambda(LambdaDef {
+        name: None,
+        args: vec![LambdaArg::Optional(String::from("a")), LambdaArg::Required(String::from("b"))],
+        body: sp(Expr::Null),
+        scope: CapturedScope::new(std::collections::HashMap::new()),
+        source: src(),
+    });
+    let heap = arena::heap();
+    let r = def.call(Value::Null, crate::av![Value::Number(a)], heap.clone(), arena::env(), 0, "");
+    std::mem::forget((def, heap));
+});
+crate::kproof!(noerr, 20, fn m42_lambda_call_returns_param() {
+    use blots_core::ast::*;
+    use blots_core::values::{CapturedScope, LambdaArg, LambdaDef};
+    let (a, b): (f64, f64) = (kani::any(), kani::any());
+    let def = blots_core::functions::FunctionDef::Lambda(LambdaDef {
+        name: None,
+        args: vec![LambdaArg::Required(String::from("a")), LambdaArg::Required(String::from("b"))],
+        body: sp(Expr::Identifier(String::from("b"))),
+        scope: CapturedScope::new(std::collections::HashMap::new()),
+        source: src(),
+    });
+    let heap = arena::heap();
+    let r = def.call(Value::Null, crate::av![Value::Number(a), Value::Number(b)], heap.clone(), arena::env(), 0, "");
+    match r { Ok(v) => assert!(same_value(v, Value::Number(b))), Err(_) => panic!("call failed") }
+    kani::cover!(true, "reach-end");
+    std::mem::forget((def, heap));
+});
+macro_rules! m43 {
+    ($name:ident, $args:expr, $body:expr, $vals:expr) => {
+        crate::kproof!(noerr, 20, fn $name() {
+            use blots_core::ast::*;
+            use blots_core::values::{CapturedScope, LambdaArg, LambdaDef};
+            let (a, b): (f64, f64) = (kani::any(), kani::any());
+            let def = blots_core::functions::FunctionDef::Lambda(LambdaDef {
+                name: None, args: $args, body: sp($body),
+                scope: CapturedScope::new(std::collections::HashMap::new()), source: src(),
+            });
+            let heap = arena::heap();
+            let mk: fn(f64, f64) -> Vec<Value> = $vals;
+            let r = def.call(Value::Null, mk(a, b), heap.clone(), arena::env(), 0, "");
+            match r { Ok(_) => {}, Err(_) => panic!("call failed") }
+            kani::cover!(true, "reach-end");
+            std::mem::forget((def, heap));
+        });
+    };
+}
+m43!(m43_one_param_get, vec![LambdaArg::Required(String::from("b"))], Expr::Identifier(String::from("b")), |a, _b| crate::av![Value::Number(a)]);
+m43!(m43_two_params_noget, vec![LambdaArg::Required(String::from("a")), LambdaArg::Required(String::from("b"))], Expr::Null, |a, b| crate::av![Value::Number(a), Value::Number(b)]);
+m43!(m43_no_params, vec![], Expr::Null, |_a, _b| crate::av![]);
+#[inline(never)]
+fn peek_body(d: &blots_core::functions::FunctionDef) -> u32 {
+    match d {
+        blots_core::functions::FunctionDef::Lambda(l) => { if !matches!(l.body.node, blots_core::ast::Expr::Null) { marker(5) } else { 0 } }
+        _ => marker(5),
+    }
+}
+crate::kproof!(noerr, 6, fn m44_lambda_def_body_tag() {
+    use blots_core::ast::*;
+    use blots_core::values::{CapturedScope, LambdaArg, LambdaDef};
+    let def = blots_core::functions::FunctionDef::Lambda(LambdaDef {
+        name: None, args: vec![], body: sp(Expr::Null),
+        scope: CapturedScope::new(std::collections::HashMap::new()), source: src(),
+    });
+    let _ = peek_body(&def);
+    std::mem::forget(def);
+});
+pub fn stub_evaluate_ast_null(
+    _e: &blots_core::ast::SpannedExpr,
+    _h: std::rc::Rc<std::cell::RefCell<Heap>>,
+    _b: std::rc::Rc<blots_core::environment::Environment>,
+    _d: usize,
+    _s: std::rc::Rc<str>,
+) -> Result<Value, blots_core::error::RuntimeError> {
+    Ok(Value::Null)
+}
+macro_rules! m45 {
+    ($name:ident, $args:expr, $vals:expr) => {
+        #[cfg(kani)]
+        #[kani::proof]
+        #[kani::unwind(20)]
+        #[kani::stub(std::hash::RandomState::new, crate::util::stub_random_state_new)]
+        #[kani::stub(alloc::alloc::dealloc, crate::util::stub_dealloc)]
+        #[kani::stub(alloc::alloc::dealloc_nonnull, crate::util::stub_dealloc_nonnull)]
+        #[kani::stub(std::backtrace::Backtrace::capture, crate::util::stub_backtrace_capture)]
+        #[kani::stub(alloc::fmt::format, crate::util::stub_format)]
+        #[kani::stub(std::time::Instant::now, crate::util::stub_instant_now)]
+        #[kani::stub(std::sync::Mutex::lock, crate::util::stub_mutex_lock)]
+        #[kani::stub(::anyhow::Error::msg, crate::util::stub_anyhow_msg_cut)]
+        #[kani::stub(::anyhow::__private::format_err, crate::util::stub_anyhow_format_err_cut)]
+        #[kani::stub(blots_core::expressions::evaluate_ast, stub_evaluate_ast_null)]
+        fn $name() {
+            use blots_core::ast::*;
+            use blots_core::values::{CapturedScope, LambdaArg, LambdaDef};
+            let (a, b): (f64, f64) = (kani::any(), kani::any());
+            let def = blots_core::functions::FunctionDef::Lambda(LambdaDef {
+                name: None, args: $args, body: sp(Expr::Null),
+                scope: CapturedScope::new(std::collections::HashMap::new()), source: src(),
+            });
+            let heap = arena::heap();
+            let mk: fn(f64, f64) -> Vec<Value> = $vals;
+            let r = def.call(Value::Null, mk(a, b), heap.clone(), arena::env(), 0, "");
+            kani::cover!(r.is_ok(), "call returns");
+            std::mem::forget((def, heap));
+        }
+    };
+}
+m45!(m45_req_req_2, vec![LambdaArg::Required(String::from("a")), LambdaArg::Required(String::from("b"))], |a, b| crate::av![Value::Number(a), Value::Number(b)]);
+m45!(m45_opt_req_1, vec![LambdaArg::Optional(String::from("a")), LambdaArg::Required(String::from("b"))], |a, _b| crate::av![Value::Number(a)]);
+crate::kproof!(cut, 6, fn m90_chunk_list1_any() {
+    let (a, p): (f64, f64) = (kani::any(), kani::any());
+    let l = arena::list_cell(vec![Value::Number(a)]);
+    let heap = arena::heap();
+    let _ = BB::Chunk.call(crate::av![l, Value::Number(p)], heap.clone(), arena::env(), 0, "");
+    std::mem::forget(heap);
+});
+crate::kproof!(cut, 6, fn m91_slice_list2_any() {
+    let (a, b, s, t): (f64, f64, f64, f64) = (kani::any(), kani::any(), kani::any(), kani::any());
+    let l = arena::list_cell(vec![Value::Number(a), Value::Number(b)]);
+    let heap = arena::heap();
+    let _ = BB::Slice.call(crate::av![l, Value::Number(s), Value::Number(t)], heap.clone(), arena::env(), 0, "");
+    std::mem::forget(heap);
+});
+crate::kproof!(cut, 6, fn m92_percentile_list2_any() {
+    let (a, b, p): (f64, f64, f64) = (kani::any(), kani::any(), kani::any());
+    let l = arena::list_cell(vec![Value::Number(a), Value::Number(b)]);
+    let heap = arena::heap();
+    let _ = BB::Percentile.call(crate::av![l, Value::Number(p)], heap.clone(), arena::env(), 0, "");
+    std::mem::forget(heap);
+});
